@@ -297,13 +297,13 @@ theorem readAt_exact (pre x post : Bytes) (off : Nat) (hoff : pre.length = off) 
   simp [hx, zeros]
 
 /-- a complete head + body at offset `off` (whatever follows) is delivered as the record it encodes -/
-theorem scanStep_headbody (pre post : Bytes) (ts crc : Nat) (r : Record) (off : Nat)
+theorem scanStepLegacy_headbody (pre post : Bytes) (ts crc : Nat) (r : Record) (off : Nat)
     (h : WF r) (hoff : pre.length = off) :
-    scanStep (pre ++ (encodeHead r.flg (bodyOf r).length ts crc ++ (bodyOf r ++ post))) off
+    scanStepLegacy (pre ++ (encodeHead r.flg (bodyOf r).length ts crc ++ (bodyOf r ++ post))) off
       = .deliver r (encLen r) := by
   obtain ⟨hf, hb⟩ := h
   have hbl := encodeBody_length r.key r.val
-  unfold scanStep
+  unfold scanStepLegacy
   have hhead := readAt_exact pre (encodeHead r.flg (bodyOf r).length ts crc) (bodyOf r ++ post) off hoff
     (by intro h0; have := congrArg List.length h0; simp at this)
   rw [encodeHead_length] at hhead
@@ -334,8 +334,8 @@ theorem scanStep_headbody (pre post : Bytes) (ts crc : Nat) (r : Record) (off : 
   rfl
 
 /-- fewer than 18+1 bytes left: whatever the (partial, zero-filled) head says, the step ends in EOF -/
-theorem scanStep_short (file : Bytes) (off : Nat) (h : file.length ≤ off + 18) : scanStep file off = .eof := by
-  unfold scanStep
+theorem scanStepLegacy_short (file : Bytes) (off : Nat) (h : file.length ≤ off + 18) : scanStepLegacy file off = .eof := by
+  unfold scanStepLegacy
   cases hh : readAt file off 18 with
   | none => rfl
   | some hb =>
@@ -346,27 +346,39 @@ theorem scanStep_short (file : Bytes) (off : Nat) (h : file.length ≤ off + 18)
     · simp [hz, decodeBody]
     · simp [hz, hd]
 
-theorem scanStep_enc (pre post : Bytes) (ts crc : Nat) (r : Record) (h : WF r) :
-    scanStep (pre ++ (encodeRecord ts crc r ++ post)) pre.length = .deliver r (encLen r) := by
+theorem scanStepLegacy_enc (pre post : Bytes) (ts crc : Nat) (r : Record) (h : WF r) :
+    scanStepLegacy (pre ++ (encodeRecord ts crc r ++ post)) pre.length = .deliver r (encLen r) := by
   rw [encodeRecord_eq ts crc r h]
   simp only [List.append_assoc]
-  exact scanStep_headbody pre _ ts crc r pre.length h rfl
+  exact scanStepLegacy_headbody pre _ ts crc r pre.length h rfl
 
-/-! ### the loop -/
+/-! ### the loop (generic in the reader) -/
 
-theorem scanLoop_at_end (fuel : Nat) (file : Bytes) (off : Nat) (acc : List Record) (h : file.length ≤ off) :
-    scanLoop fuel file off acc = ⟨.eof, off, acc⟩ := by
+/-- what the loop lemmas need from a step function -/
+structure StepOK (step : Bytes → Nat → Step) : Prop where
+  short : ∀ file off, file.length ≤ off + 18 → step file off = .eof
+  adv : ∀ file off r adv, step file off = .deliver r adv → adv % 256 = 0
+
+theorem scanLoop_at_end {step : Bytes → Nat → Step} (hs : StepOK step) (fuel : Nat) (file : Bytes) (off : Nat)
+    (acc : List Record) (h : file.length ≤ off) :
+    scanLoop step fuel file off acc = ⟨.eof, off, acc⟩ := by
   cases fuel with
   | zero => simp [scanLoop, h]
-  | succ f => simp [scanLoop, scanStep_short file off (by omega)]
+  | succ f => simp [scanLoop, hs.short file off (by omega)]
 
-theorem scanLoop_short (fuel : Nat) (file : Bytes) (off : Nat) (acc : List Record) (h : file.length ≤ off + 18) :
-    scanLoop (fuel + 1) file off acc = ⟨.eof, off, acc⟩ := by
-  simp [scanLoop, scanStep_short file off h]
+theorem scanLoop_short {step : Bytes → Nat → Step} (hs : StepOK step) (fuel : Nat) (file : Bytes) (off : Nat)
+    (acc : List Record) (h : file.length ≤ off + 18) :
+    scanLoop step (fuel + 1) file off acc = ⟨.eof, off, acc⟩ := by
+  simp [scanLoop, hs.short file off h]
 
-theorem scanLoop_deliver (fuel : Nat) (file : Bytes) (off : Nat) (acc : List Record) (r : Record) (adv : Nat)
-    (h : scanStep file off = .deliver r adv) (hadv : adv ≠ 0) :
-    scanLoop (fuel + 1) file off acc = scanLoop fuel file (off + adv) (acc ++ [r]) := by
+theorem scanLoop_eof {step : Bytes → Nat → Step} (fuel : Nat) (file : Bytes) (off : Nat)
+    (acc : List Record) (h : step file off = .eof) :
+    scanLoop step (fuel + 1) file off acc = ⟨.eof, off, acc⟩ := by
+  simp [scanLoop, h]
+
+theorem scanLoop_deliver {step : Bytes → Nat → Step} (fuel : Nat) (file : Bytes) (off : Nat) (acc : List Record)
+    (r : Record) (adv : Nat) (h : step file off = .deliver r adv) (hadv : adv ≠ 0) :
+    scanLoop step (fuel + 1) file off acc = scanLoop step fuel file (off + adv) (acc ++ [r]) := by
   simp [scanLoop, h, hadv]
 
 theorem encodeAll_length_ge (ss : List Stamped) (h : ∀ s ∈ ss, WF s.r) : 256 * ss.length ≤ (encodeAll ss).length := by
@@ -380,10 +392,13 @@ theorem encodeAll_length_ge (ss : List Stamped) (h : ∀ s ∈ ss, WF s.r) : 256
     omega
 
 /-- the loop consumes a run of complete records, delivering exactly them -/
-theorem scanLoop_encodeAll (ss : List Stamped) (pre tail : Bytes) (acc : List Record) (fuel : Nat)
-    (h : ∀ s ∈ ss, WF s.r) (hf : ss.length ≤ fuel) :
-    scanLoop fuel (pre ++ (encodeAll ss ++ tail)) pre.length acc
-      = scanLoop (fuel - ss.length) (pre ++ (encodeAll ss ++ tail)) (pre.length + (encodeAll ss).length)
+theorem scanLoop_encodeAll {step : Bytes → Nat → Step} (ss : List Stamped) (pre tail : Bytes) (acc : List Record)
+    (fuel : Nat) (h : ∀ s ∈ ss, WF s.r)
+    (henc : ∀ (pre post : Bytes) (s : Stamped), s ∈ ss →
+      step (pre ++ (encodeRecord s.ts s.crc s.r ++ post)) pre.length = .deliver s.r (encLen s.r))
+    (hf : ss.length ≤ fuel) :
+    scanLoop step fuel (pre ++ (encodeAll ss ++ tail)) pre.length acc
+      = scanLoop step (fuel - ss.length) (pre ++ (encodeAll ss ++ tail)) (pre.length + (encodeAll ss).length)
           (acc ++ ss.map (·.r)) := by
   induction ss generalizing pre acc fuel with
   | nil => simp [encodeAll]
@@ -393,9 +408,9 @@ theorem scanLoop_encodeAll (ss : List Stamped) (pre tail : Bytes) (acc : List Re
     have hlen := encodeRecord_length s.ts s.crc s.r hs
     have hb := encLen_bounds s.r hs
     simp only [encodeAll, List.append_assoc]
-    rw [scanLoop_deliver f _ _ acc s.r (encLen s.r) (scanStep_enc pre _ s.ts s.crc s.r hs) (by omega)]
+    rw [scanLoop_deliver f _ _ acc s.r (encLen s.r) (henc pre _ s (by simp)) (by omega)]
     have ih' := ih (pre ++ encodeRecord s.ts s.crc s.r) (acc ++ [s.r]) f (fun s' hs' => h s' (by simp [hs']))
-      (by simp at hf; omega)
+      (fun pre post s' hs' => henc pre post s' (by simp [hs'])) (by simp at hf; omega)
     simp only [List.append_assoc, List.length_append, hlen] at ih'
     rw [ih']
     simp only [List.length_cons, List.map_cons, List.length_append, hlen]
@@ -403,9 +418,9 @@ theorem scanLoop_encodeAll (ss : List Stamped) (pre tail : Bytes) (acc : List Re
     · omega
     · omega
 
-theorem scanStep_adv (file : Bytes) (off : Nat) (r : Record) (adv : Nat)
-    (h : scanStep file off = .deliver r adv) : adv % 256 = 0 := by
-  unfold scanStep at h
+theorem scanStepLegacy_adv (file : Bytes) (off : Nat) (r : Record) (adv : Nat)
+    (h : scanStepLegacy file off = .deliver r adv) : adv % 256 = 0 := by
+  unfold scanStepLegacy at h
   split at h
   · contradiction
   · simp only at h
@@ -417,13 +432,13 @@ theorem scanStep_adv (file : Bytes) (off : Nat) (r : Record) (adv : Nat)
       · injection h with _ h2
         rw [← h2]; exact align_mod _
 
-theorem scanLoop_no_fuel (fuel : Nat) (file : Bytes) (off : Nat) (acc : List Record)
-    (h : file.length ≤ off + 256 * fuel) : (scanLoop fuel file off acc).stop ≠ .fuel := by
+theorem scanLoop_no_fuel {step : Bytes → Nat → Step} (hs : StepOK step) (fuel : Nat) (file : Bytes) (off : Nat)
+    (acc : List Record) (h : file.length ≤ off + 256 * fuel) : (scanLoop step fuel file off acc).stop ≠ .fuel := by
   induction fuel generalizing off acc with
   | zero => simp [scanLoop, show file.length ≤ off by omega]
   | succ f ih =>
     unfold scanLoop
-    cases hs : scanStep file off with
+    cases hst : step file off with
     | eof => simp
     | err e => simp
     | deliver r adv =>
@@ -431,8 +446,10 @@ theorem scanLoop_no_fuel (fuel : Nat) (file : Bytes) (off : Nat) (acc : List Rec
       by_cases h0 : adv = 0
       · simp [h0]
       · rw [if_neg h0]
-        have := scanStep_adv file off r adv hs
+        have := hs.adv file off r adv hst
         exact ih (off + adv) (acc ++ [r]) (by omega)
+
+theorem stepOK_legacy : StepOK scanStepLegacy := ⟨scanStepLegacy_short, scanStepLegacy_adv⟩
 
 /-! ### abstract store: last writer wins -/
 
@@ -493,8 +510,8 @@ theorem readAt_shift (pre x tail : Bytes) (n : Nat) :
   rw [this, List.drop_zero]
 
 /-- the head is complete: the step is determined by what the body read returns -/
-theorem scanStep_head (pre tail : Bytes) (f l ts crc : Nat) (hf : f < 4294967296) (hl : l < 4294967296) :
-    scanStep (pre ++ (encodeHead f l ts crc ++ tail)) pre.length =
+theorem scanStepLegacy_head (pre tail : Bytes) (f l ts crc : Nat) (hf : f < 4294967296) (hl : l < 4294967296) :
+    scanStepLegacy (pre ++ (encodeHead f l ts crc ++ tail)) pre.length =
       match readAt tail 0 l with
       | none => .eof
       | some bb =>
@@ -502,7 +519,7 @@ theorem scanStep_head (pre tail : Bytes) (f l ts crc : Nat) (hf : f < 4294967296
         | .eof => .eof
         | .err e => .err e
         | .ok k v => .deliver ⟨f, k, v⟩ (FileUtilsAlign (GoSem.uadd 4294967296 18 l)) := by
-  unfold scanStep
+  unfold scanStepLegacy
   have hhead := readAt_exact pre (encodeHead f l ts crc) tail pre.length rfl
     (by intro h0; have := congrArg List.length h0; simp at this)
   rw [encodeHead_length] at hhead
@@ -570,3 +587,240 @@ theorem readAt_torn (r : Record) (zs : Bytes) (c : Nat) (hc : 18 < c) :
   rw [List.length_take]
   have : (bodyOf r).length - min (c - 18) (bodyOf r).length = (bodyOf r).length - (c - 18) := by omega
   rw [this]
+
+/-! ### the checksum -/
+
+theorem zeros_add (a b : Nat) : zeros (a + b) = zeros a ++ zeros b := by
+  induction a with
+  | zero => simp [zeros]
+  | succ a ih =>
+    have : a + 1 + b = (a + b) + 1 := by omega
+    rw [this]
+    simp only [zeros, List.replicate_succ, List.cons_append] at ih ⊢
+    rw [ih]
+
+theorem xor_eq_zero {a b : Nat} (h : a ^^^ b = 0) : a = b := by
+  have : (a ^^^ b) ^^^ b = 0 ^^^ b := by rw [h]
+  rw [Nat.xor_assoc, Nat.xor_self, Nat.xor_zero, Nat.zero_xor] at this
+  exact this
+
+theorem crcBit_lt {s : Nat} (h : s < 65536) : crcBit s < 65536 := by
+  unfold crcBit
+  split
+  · exact Nat.xor_lt_two_pow (n := 16) (by omega) (by omega)
+  · omega
+
+theorem crcBit_ne_zero {s : Nat} (h : s < 65536) (h0 : s ≠ 0) : crcBit s ≠ 0 := by
+  unfold crcBit
+  split
+  · intro hx
+    have := xor_eq_zero hx
+    omega
+  · omega
+
+theorem crcByte_zero {s : Nat} (h : s < 65536) (h0 : s ≠ 0) : crcByte s 0 < 65536 ∧ crcByte s 0 ≠ 0 := by
+  unfold crcByte
+  have e : s ^^^ (0 : UInt8).toNat = s := by
+    have : (0 : UInt8).toNat = 0 := by decide
+    rw [this, Nat.xor_zero]
+  rw [e]
+  have l1 := crcBit_lt h; have n1 := crcBit_ne_zero h h0
+  have l2 := crcBit_lt l1; have n2 := crcBit_ne_zero l1 n1
+  have l3 := crcBit_lt l2; have n3 := crcBit_ne_zero l2 n2
+  have l4 := crcBit_lt l3; have n4 := crcBit_ne_zero l3 n3
+  have l5 := crcBit_lt l4; have n5 := crcBit_ne_zero l4 n4
+  have l6 := crcBit_lt l5; have n6 := crcBit_ne_zero l5 n5
+  have l7 := crcBit_lt l6; have n7 := crcBit_ne_zero l6 n6
+  exact ⟨crcBit_lt l7, crcBit_ne_zero l7 n7⟩
+
+theorem foldl_crc_zeros (n s : Nat) (h : s < 65536) (h0 : s ≠ 0) :
+    (zeros n).foldl crcByte s < 65536 ∧ (zeros n).foldl crcByte s ≠ 0 := by
+  induction n generalizing s with
+  | zero => exact ⟨h, h0⟩
+  | succ n ih =>
+    have := crcByte_zero h h0
+    simp only [zeros, List.replicate_succ, List.foldl_cons]
+    exact ih _ this.1 this.2
+
+/-- the CRC-16/MODBUS of a run of zero bytes is never 0 (the register starts at 0xFFFF and the
+    update is a bijection fixing 0) -/
+theorem crc16_zeros_ne_zero (n : Nat) : crc16 (zeros n) % 65536 ≠ 0 := by
+  have := foldl_crc_zeros n 65535 (by omega) (by omega)
+  unfold crc16
+  omega
+
+/-! ### the current reader (`io.ReadFull` + CRC check) -/
+
+/-- a record as `FileUtilsEncode` writes it: well-formed and carrying the checksum of its body -/
+def Sealed (s : Stamped) : Prop := WF s.r ∧ s.crc = crc16 (bodyOf s.r)
+
+instance (s : Stamped) : Decidable (Sealed s) := by unfold Sealed; exact inferInstance
+
+theorem readFull_exact (pre x post : Bytes) (off : Nat) (hoff : pre.length = off) :
+    readFull (pre ++ (x ++ post)) off x.length = some x := by
+  unfold readFull
+  by_cases hl : x.length = 0
+  · rw [if_pos hl, List.eq_nil_of_length_eq_zero hl]
+  · rw [if_neg hl, List.drop_left' hoff]
+    have : ¬ ((x ++ post).length < x.length) := by simp
+    rw [if_neg this, List.take_left' rfl]
+
+theorem readFull_shift (pre x tail : Bytes) (n : Nat) :
+    readFull (pre ++ (x ++ tail)) (pre.length + x.length) n = readFull tail 0 n := by
+  unfold readFull
+  have : (pre ++ (x ++ tail)).drop (pre.length + x.length) = tail := by
+    rw [← List.append_assoc]
+    exact List.drop_left' (by simp)
+  rw [this, List.drop_zero]
+
+/-- any 18 bytes in head position: the step is determined by the body read and the CRC comparison -/
+theorem scanStep_rawhead (pre hb tail : Bytes) (hlen : hb.length = 18) :
+    scanStep (pre ++ (hb ++ tail)) pre.length =
+      match readFull tail 0 (leVal ((hb.drop 4).take 4)) with
+      | none => .eof
+      | some bb =>
+        if crc16 bb % 65536 ≠ leVal (hb.drop 16) then .eof
+        else
+          match decodeBody bb with
+          | .eof => .eof
+          | .err e => .err e
+          | .ok k v => .deliver ⟨leVal (hb.take 4), k, v⟩
+              (FileUtilsAlign (GoSem.uadd 4294967296 18 (leVal ((hb.drop 4).take 4)))) := by
+  unfold scanStep
+  have hhead := readFull_exact pre hb tail pre.length rfl
+  rw [hlen] at hhead
+  rw [hhead]
+  simp only
+  have := readFull_shift pre hb tail (leVal ((hb.drop 4).take 4))
+  rw [hlen] at this
+  rw [this]
+  cases readFull tail 0 (leVal ((hb.drop 4).take 4)) with
+  | none => rfl
+  | some bb =>
+    simp only
+    split
+    · rfl
+    · cases decodeBody bb <;> rfl
+
+theorem encodeHead_fields (f l ts crc : Nat) (hf : f < 4294967296) (hl : l < 4294967296) :
+    leVal ((encodeHead f l ts crc).take 4) = f ∧
+    leVal (((encodeHead f l ts crc).drop 4).take 4) = l ∧
+    leVal ((encodeHead f l ts crc).drop 16) = crc % 65536 := by
+  refine ⟨?_, ?_, ?_⟩
+  · unfold encodeHead
+    rw [List.append_assoc, List.append_assoc, List.take_left' (leBytes_length _ _), leVal_leBytes]
+    exact Nat.mod_eq_of_lt hf
+  · unfold encodeHead
+    rw [List.append_assoc, List.append_assoc, List.drop_left' (leBytes_length _ _),
+      List.take_left' (leBytes_length _ _), leVal_leBytes]
+    exact Nat.mod_eq_of_lt hl
+  · unfold encodeHead
+    rw [List.drop_left' (by simp), leVal_leBytes]
+
+/-- the head is complete -/
+theorem scanStep_head (pre tail : Bytes) (f l ts crc : Nat) (hf : f < 4294967296) (hl : l < 4294967296) :
+    scanStep (pre ++ (encodeHead f l ts crc ++ tail)) pre.length =
+      match readFull tail 0 l with
+      | none => .eof
+      | some bb =>
+        if crc16 bb % 65536 ≠ crc % 65536 then .eof
+        else
+          match decodeBody bb with
+          | .eof => .eof
+          | .err e => .err e
+          | .ok k v => .deliver ⟨f, k, v⟩ (FileUtilsAlign (GoSem.uadd 4294967296 18 l)) := by
+  obtain ⟨h1, h2, h3⟩ := encodeHead_fields f l ts crc hf hl
+  rw [scanStep_rawhead pre _ tail (encodeHead_length _ _ _ _), h1, h2, h3]
+
+/-- a complete, sealed head + body at offset `off` (whatever follows) is delivered as the record it encodes -/
+theorem scanStep_headbody (pre post : Bytes) (ts : Nat) (r : Record) (h : WF r) :
+    scanStep (pre ++ (encodeHead r.flg (bodyOf r).length ts (crc16 (bodyOf r)) ++ (bodyOf r ++ post))) pre.length
+      = .deliver r (encLen r) := by
+  obtain ⟨hf, hb⟩ := h
+  have hbl := encodeBody_length r.key r.val
+  rw [scanStep_head pre _ _ _ _ _ hf (by omega)]
+  have := readFull_exact [] (bodyOf r) post 0 rfl
+  rw [List.nil_append] at this
+  rw [this]
+  have hdec : decodeBody (bodyOf r) = .ok r.key r.val := by
+    unfold bodyOf at hb ⊢
+    exact decodeBody_encodeBody _ _ (by omega)
+  have hu : GoSem.uadd 4294967296 18 (bodyOf r).length = 18 + (bodyOf r).length := by
+    unfold GoSem.uadd; omega
+  simp only [ne_eq, not_true_eq_false, if_false, hdec, hu]
+  rfl
+
+theorem scanStep_enc (pre post : Bytes) (s : Stamped) (h : Sealed s) :
+    scanStep (pre ++ (encodeRecord s.ts s.crc s.r ++ post)) pre.length = .deliver s.r (encLen s.r) := by
+  rw [encodeRecord_eq s.ts s.crc s.r h.1, h.2]
+  simp only [List.append_assoc]
+  exact scanStep_headbody pre _ s.ts s.r h.1
+
+theorem decodeBody_nil : decodeBody [] = .eof := by simp [decodeBody]
+
+theorem scanStep_short (file : Bytes) (off : Nat) (h : file.length ≤ off + 18) : scanStep file off = .eof := by
+  unfold scanStep
+  cases hh : readFull file off 18 with
+  | none => rfl
+  | some hb =>
+    simp only
+    have hd : file.drop (off + 18) = [] := List.drop_eq_nil_of_le h
+    unfold readFull
+    by_cases hz : leVal ((hb.drop 4).take 4) = 0
+    · simp only [hz, if_true]
+      split
+      · rfl
+      · rw [decodeBody_nil]
+    · simp [hz, hd]
+      omega
+
+theorem scanStep_adv (file : Bytes) (off : Nat) (r : Record) (adv : Nat)
+    (h : scanStep file off = .deliver r adv) : adv % 256 = 0 := by
+  unfold scanStep at h
+  split at h
+  · contradiction
+  · simp only at h
+    split at h
+    · contradiction
+    · split at h
+      · contradiction
+      · split at h
+        · contradiction
+        · contradiction
+        · injection h with _ h2
+          rw [← h2]; exact align_mod _
+
+theorem stepOK_live : StepOK scanStep := ⟨scanStep_short, scanStep_adv⟩
+
+theorem leVal_zeros (n : Nat) : leVal (zeros n) = 0 := by
+  induction n with
+  | zero => rfl
+  | succ n ih =>
+    simp only [zeros, List.replicate_succ, leVal] at ih ⊢
+    rw [ih]; decide
+
+/-- a body read inside a run of zero bytes -/
+theorem readFull_zeros (n l : Nat) :
+    readFull (zeros n) 0 l = if l = 0 then some [] else if n < l then none else some (zeros l) := by
+  unfold readFull
+  by_cases h0 : l = 0
+  · simp [h0]
+  · simp only [h0, if_false, List.drop_zero, zeros_length]
+    by_cases h1 : n < l
+    · simp [h1]
+    · simp only [h1, if_false, zeros, List.take_replicate]
+      congr 2
+      omega
+
+/-- a zero-filled region is the end of the log -/
+theorem scanStep_zeros (pre : Bytes) (n : Nat) : scanStep (pre ++ zeros n) pre.length = .eof := by
+  by_cases h : n ≤ 18
+  · exact scanStep_short _ _ (by simp; omega)
+  · have : zeros n = zeros 18 ++ zeros (n - 18) := by rw [← zeros_add]; congr 1; omega
+    rw [this, scanStep_rawhead pre (zeros 18) _ (by simp)]
+    have hl : leVal ((List.drop 4 (zeros 18)).take 4) = 0 := by decide
+    rw [hl, readFull_zeros]
+    simp only [if_true]
+    split
+    · rfl
+    · rw [decodeBody_nil]
